@@ -10,8 +10,8 @@ import "github.com/youchainhq/go-youchain/common"
 // VerifNode is one entry of the in-memory node cache.
 type VerifNode struct {
 	Hash    common.Hash
-	Parents uint16
-	Size    uint16
+	Parents uint64
+	Size    uint64
 }
 
 // VerifFlushList walks the flush-list from the oldest to the newest entry.
@@ -27,19 +27,19 @@ func (db *Database) VerifFlushList() (out []VerifNode, ok bool) {
 			return out, false
 		}
 		seen[h] = true
-		out = append(out, VerifNode{Hash: h, Parents: n.parents, Size: n.size})
+		out = append(out, VerifNode{Hash: h, Parents: uint64(n.parents), Size: uint64(n.size)})
 		h = n.flushNext
 	}
 	return out, len(out) == len(db.nodes)-1
 }
 
 // VerifMetaChildren returns the explicit children of the meta root.
-func (db *Database) VerifMetaChildren() map[common.Hash]uint16 {
+func (db *Database) VerifMetaChildren() map[common.Hash]uint64 {
 	db.lock.RLock()
 	defer db.lock.RUnlock()
-	out := map[common.Hash]uint16{}
+	out := map[common.Hash]uint64{}
 	for k, v := range db.nodes[common.Hash{}].children {
-		out[k] = v
+		out[k] = uint64(v)
 	}
 	return out
 }
